@@ -236,7 +236,7 @@ func planC11(tier string, seed uint64) *Plan {
 	}
 	n, jobs, count := 16, 2, 150
 	if tier == "thorough" {
-		n, jobs, count = 32, 4, 1500
+		n, jobs, count = 32, 4, 500
 	}
 	p.Phases = []Phase{{Name: "feeds", Groups: randomPlan("c11", seed, swarmCfgs(seed, n), jobs, count, "stub")}}
 	return p
@@ -251,7 +251,7 @@ func planC09(tier string, seed uint64) *Plan {
 	}
 	n, jobs, count := 16, 2, 200
 	if tier == "thorough" {
-		n, jobs, count = 32, 4, 3000
+		n, jobs, count = 32, 4, 1200
 	}
 	groups := randomPlan("c09", seed, swarmCfgs(seed, n), jobs, count, "auto")
 	groups = append(groups, randomPlan("ui_keymap", seed+21, uiCfgs(seed+21, n/2, nil), 1, count/5, "stub")...)
@@ -303,7 +303,7 @@ func planC08(tier string, seed uint64) *Plan {
 	}
 	n, jobs, count := 16, 2, 40
 	if tier == "thorough" {
-		n, jobs, count = 32, 4, 600
+		n, jobs, count = 32, 4, 150
 	}
 	racingGroups := randomPlan("ui_race", seed, uiCfgs(seed, n, nil), jobs, count, "stub")
 	// the same under servitor's real main(): its keyboard loop, poller and subcommand goroutine
@@ -341,7 +341,7 @@ func planC16(tier string, seed uint64) *Plan {
 	}
 	n, jobs, count := 16, 2, 40
 	if tier == "thorough" {
-		n, jobs, count = 32, 4, 500
+		n, jobs, count = 32, 4, 200
 	}
 	groups := randomPlan("ui_sizes", seed, uiCfgs(seed, n, nil), jobs, count, "stub")
 	groups = append(groups, randomPlan("ui_race", seed+3, uiCfgs(seed+3, n/2, nil), 1, count/2, "stub")...)
@@ -380,7 +380,7 @@ func planC20(tier string, seed uint64) *Plan {
 	}
 	n, jobs, count := 16, 2, 40
 	if tier == "thorough" {
-		n, jobs, count = 32, 4, 500
+		n, jobs, count = 32, 4, 350
 	}
 	groups := randomPlan("ui_hook", seed, uiCfgs(seed, n, hookVariants), jobs, count, "stub")
 	// the same under racing pacing: type-ahead while the hook is being started
@@ -419,7 +419,7 @@ func planC07(tier string, seed uint64) *Plan {
 	}
 	n, jobs, count := 16, 2, 40
 	if tier == "thorough" {
-		n, jobs, count = 32, 4, 500
+		n, jobs, count = 32, 4, 200
 	}
 	groups := randomPlan("ui_keymap", seed, uiCfgs(seed, n, nil), jobs, count, "stub")
 	groups = append(groups, randomPlan("ui_keymash", seed+9, uiCfgs(seed+9, n/2, nil), jobs, count/2, "stub")...)
